@@ -3,7 +3,7 @@ import StraxModel.Props.C03
 /-
   Helper lemmas for property C16.  Everything here is composition: the storage round trip of C03
   (`Strax.C03.loaded_is_rechunker_output`, `roundtrip_plain_storable`, `meta_consistent`) with the
-  stream theorem of C07 (`Strax.C07.rechunk_stream`, `splitOff_good`, `getSplits_gapsRel`), plus
+  stream theorem of C07 (`Strax.C07.rechunk_stream_partial`, `splitOff_good`, `getSplits_gapsRel`), plus
   bookkeeping about streams (`restore`, `setTarget`, appending law-abiding streams), the
   directory-operation plan of the stand-alone rechunker and the lineage tagging.  Core Lean only.
 -/
@@ -159,7 +159,7 @@ structure Preserved (hdr : Header) (rid : String) (re : Bool) (s loaded : List C
 /-- **The work-horse.**  A C07-law-abiding, non-empty stream of a plain run, saved (with or without
 rechunking; with rechunking the targets are at least one row) and loaded back: both steps succeed
 and the loaded stream is again C07-law-abiding with the same rows, range and run.
-Composition of `Strax.C07.rechunk_stream`, `Strax.C03.loaded_is_rechunker_output` and
+Composition of `Strax.C07.rechunk_stream_partial`, `Strax.C03.loaded_is_rechunker_output` and
 `Strax.C03.roundtrip_plain_storable`. -/
 theorem roundtrip_strong (re : Bool) (hdr : Header) (rid : String) (s : List Chunk)
     (hne : s ≠ []) (hl : LawAbiding s = true) (ht : re = true → ∀ c ∈ s, 1 ≤ c.target)
@@ -222,7 +222,7 @@ theorem roundtrip_strong (re : Bool) (hdr : Header) (rid : String) (s : List Chu
     intro t ht'
     simp [ht']
   | true =>
-    obtain ⟨out, hre, hrows, hstart, hstop, hlaw, hrun, _, hb⟩ := Strax.C07.rechunk_stream (a :: l) hl (ht rfl)
+    obtain ⟨out, hre, hrows, hstart, hstop, hlaw, hrun, _, hb⟩ := Strax.C07.rechunk_stream_partial (a :: l) hl (ht rfl)
     exact key out hre hlaw hrows hstart hstop hrun (boundaryRuleB_of_prop _ _ hb) (fun h => by cases h)
 
 /-- a stream that was loaded from storage is not empty -/
